@@ -93,6 +93,10 @@ func VerifC13Traversal() {
 	// NOREVERSE=1: this entry only walks forward (the reverse direction is left to the other entries)
 	reverse := vrtParam("NOREVERSE", 0) == 0 && vrtChoice("reverse", 2) == 1
 	limit := []int{0, 1, 2, -1}[vrtChoice("limit", vrtParam("LIMITS", 3))] // 0 unbounded, 1, 2; -1 is another way to say unbounded
+	if only := vrtParam("LIMITONLY", 0); only > 0 {
+		// the entry with free yields only runs the limit that three independent visitors can exceed
+		limit = only
+	}
 	failAt := []string{"", "a", "b", "c"}[vrtChoice("failAt", vrtParam("FAILS", 4))]
 	var opts []func(*Options)
 	if reverse {
